@@ -103,6 +103,17 @@ fn generate(a: &Args) -> i32 {
                 sink.case(&format!("e2e iter {} {} | {}", cfg.tokens(true), ty.tokens(), items), &iter);
                 sink.case(&format!("e2e single {} {} | {}", cfg.tokens(false), ty.tokens(), items), &single);
                 if seq.len() > 1 { sink.count("distinct_nontrivial"); }
+                // per-document event accounting (C07), also on the recovery path: tight `max_events`, so that documents of
+                // 3..8 events sit on either side of the limit — a document is charged its own DocumentStart … DocumentEnd
+                // wherever it stands, also right after an abandoned document (skip_to_next_document)
+                if ti == (((n - 1) / 3) % 3) as usize {
+                    for me in [4usize, 6, 7] {
+                        let cfg2 = Cfg { budget: Some(Budget { max_events: me, ..Budget::default() }), limits: AliasLimits::default(), ..cfg.clone() };
+                        let iter2 = run_iter(&text, ty, &cfg2);
+                        sink.count(&format!("iter.max_events.{}", iter2.split(' ').take(2).collect::<Vec<_>>().join(".")));
+                        sink.case(&format!("e2e iter {} {} | {}", cfg2.tokens(true), ty.tokens(), items), &iter2);
+                    }
+                }
 
                 // ---- implementation-only oracle
                 // per-document results, each document parsed on its own
@@ -160,7 +171,7 @@ fn generate(a: &Args) -> i32 {
     let nt = sink.stats.get("distinct_nontrivial").copied().unwrap_or(0);
     sink.finish(&a.out, "docs", serde_json::json!({
         "distinct_nontrivial": nt,
-        "rule": "every sequence of document kinds up to length 2 (quick: plus a third of length 3; thorough: all of length 3 and a quarter of length 4) over 20 kinds (a type error after alias replay used up a tightened replay allowance, valid map/seq/scalar, empty, ~, null, anchor-defining (scalar anchor; container-only anchor), aliasing an earlier document's anchor, type error after consumed events, type errors raised on a merely PEEKED event (unit given a value, unit variant given a payload), unterminated flow, with `...`, trailing comment, syntax error, duplicate key, documents that fail before producing an event (stray `]`, alias to nothing)), with and without a leading `---`, x {untyped, struct, struct with unit / enum fields} target x {default budget, no budget, max_depth 3, max_total_replayed_events 3}: batch (from_multiple), iterator (read) and single-document entry point vs the model; oracle: batch = list of per-document results, iterator = batch when nothing fails, single rejects a second document, anchors invisible across documents, iterator resumes after a type-level error. Non-trivial = streams with more than one document.",
+        "rule": "every sequence of document kinds up to length 2 (quick: plus a third of length 3; thorough: all of length 3 and a quarter of length 4) over 20 kinds (a type error after alias replay used up a tightened replay allowance, valid map/seq/scalar, empty, ~, null, anchor-defining (scalar anchor; container-only anchor), aliasing an earlier document's anchor, type error after consumed events, type errors raised on a merely PEEKED event (unit given a value, unit variant given a payload), unterminated flow, with `...`, trailing comment, syntax error, duplicate key, documents that fail before producing an event (stray `]`, alias to nothing)), with and without a leading `---`, x {untyped, struct, struct with unit / enum fields} target x {default budget, no budget, max_depth 3, max_total_replayed_events 3}: batch (from_multiple), iterator (read) and single-document entry point vs the model; plus the iterator under max_events 4 / 6 / 7 for one target per stream (per-document event accounting on the normal and on the recovery path); oracle: batch = list of per-document results, iterator = batch when nothing fails, single rejects a second document, anchors invisible across documents, iterator resumes after a type-level error. Non-trivial = streams with more than one document.",
     }));
     0
 }
